@@ -28,14 +28,15 @@ impl ReluctantFixed {
 impl OperationControl for ReluctantFixed {
     fn get_match_length(&self) -> Option<usize> {
         if self.min == self.max {
-            Some(self.min * self.len)
+            Some(self.min.saturating_mul(self.len))
         } else {
             None
         }
     }
 
     fn get_minimum_match_length(&self) -> usize {
-        self.min * self.operation.get_minimum_match_length()
+        self.min
+            .saturating_mul(self.operation.get_minimum_match_length())
     }
 
     fn matches_empty_string(&self) -> u32 {
